@@ -1434,6 +1434,14 @@ func (v *VMValue) ArrayRepeatTimesEx(ctx *Context, times *VMValue) *VMValue {
 	case VMTypeInt:
 		times, _ := times.ReadInt()
 		ad, _ := v.ReadArray()
+		if times < 0 {
+			ctx.Error = errors.New("数组重复次数不能为负数")
+			return nil
+		}
+		if times > 512 {
+			ctx.Error = errors.New("不能一次性创建过长的数组")
+			return nil
+		}
 		length := IntType(len(ad.List)) * times
 
 		if length > 512 {
